@@ -2,7 +2,9 @@
 (* Trace validation (code -> model) for C10.  harness/cmd/views record drives the
    REAL matrices with seeded random histories on owners larger than the exhaustive
    bounds (up to 9 x 8 cells, words up to length 6): reset (a new owner with logged
-   values), Slice, T, and writes through the current view.  After every call it logs
+   values; sparse owners may store their zero elements explicitly), Slice, T, writes
+   through the current view and iterations of the view (logged sequence of
+   (i, j, value)).  After every call it logs
    the dimensions of the view, the content of the view read through At(i,j) and the
    content of the owner.  Each event must be the corresponding step of the contract
    of MatrixView.tla (word w, denotation Den) extended by the owner's content `par';
@@ -42,11 +44,15 @@ TWrite == /\ Step("write")
           /\ par' = [par EXCEPT ![Cell(w, Ev.i, Ev.j)] = Ev.v]
           /\ UNCHANGED <<pr, pc, w, dims, hd, sp>>
 
+(* iterating the view: no change of the contract state; the logged sequence is checked in ObsOK *)
+TIter == /\ Step("iter")
+         /\ UNCHANGED <<pr, pc, w, dims, hd, sp, par>>
+
 TraceInit == /\ l = 1 /\ pr = 1 /\ pc = 1 /\ w = <<>> /\ dims = <<1, 1>>
              /\ hd = Hdr(1, 1, 0, 1, 0, 1, FALSE)
              /\ sp = [h |-> Hdr(1, 1, 0, 1, 0, 1, FALSE), st |-> [k \in 0..0 |-> k]]
              /\ par = [k \in 0..0 |-> 0]
-TraceNext == TReset \/ TSlice \/ TT \/ TWrite
+TraceNext == TReset \/ TSlice \/ TT \/ TWrite \/ TIter
 TraceSpec == TraceInit /\ [][TraceNext]_tvars
 
 (* what the real code showed after the event that produced the current state *)
@@ -56,6 +62,11 @@ ObsOK ==
       /\ e.dims = dims
       /\ e.obs = [i \in 1..dims[1] |-> [j \in 1..dims[2] |-> par[Cell(w, i - 1, j - 1)]]]
       /\ e.par = [k \in 1..NCells |-> par[k - 1]]
+      \* iteration after any history of writes: exactly the non-zero elements, row-major
+      /\ e.e = "iter" =>
+           e.it = SelectSeq([p \in 1..(dims[1] * dims[2]) |->
+                               <<(p - 1) \div dims[2], (p - 1) % dims[2],
+                                 par[Cell(w, (p - 1) \div dims[2], (p - 1) % dims[2])]>>], NonZero)
 
 TraceAccepted ==
   IF TLCGet("stats").diameter - 1 = Len(Trace) THEN TRUE
